@@ -331,6 +331,9 @@ func (c *Ctx) callFunction(st *State, fn *ssa.Function, args []Value) (*State, V
 
 // closure call
 func (c *Ctx) callClosure(st *State, f *Func, args []Value) (*State, Value) {
+	if f.fn == nil && f.builtin == "vswapper" {
+		return c.swapElems(st, f.env[0].(*Slice), args[0], args[1]), nil
+	}
 	if f.fn == nil {
 		panic(engineErr("call of nil/builtin func value " + f.builtin))
 	}
